@@ -13,7 +13,7 @@ import DadiVerif.Model.Optim
    c12.obj <params> <lower|N> <upper|N> <fixed|N> <llscale> <keys> <vals>
                                                -> ok <value> <point evaluated | ->   | err IndexError | err missing_model_entry
    c12.trace <wrapper> <p0> <lower|N> <upper|N> <fixed|N> <llscale> <queries> <xopt> <fopt> <keys> <vals> <exptab> <logtab> <tol> <vtol>
-                                               -> ok <start|N> <optLower|N> <optUpper|N> <values> <evals> <result|N> <reported|N> <failed clauses | ->
+                                               -> ok <start|N> <optLower|N> <optUpper|N> <values> <evals> <result|N> <reported|N> <failed clauses | -> <answer is an evaluated pair 0|1>
                                                   | err unknown_wrapper | err ValueError | err IndexError | err missing_table_entry | err missing_model_entry
    c12.points  <same arguments as c12.trace>   -> ok <vectors whose likelihood c12.trace will look up> (the likelihood table given is ignored)
    c12.perturb <params> <factors> <lower|N> <upper|N>  -> ok <vec>       | err shape
@@ -105,7 +105,7 @@ def traceOp (pointsOnly : Bool) (w : Wrapper) (pb : Problem) (qs : List (List Ra
     let failed := checkTrace w expF logF pb mt.fn tol vtol r
     (s!"{showOptList r.start} {showBVs r.optLower} {showBVs r.optUpper} {showList (r.run.history.map (·.2))} " ++
      s!"{showVecs r.run.evals} {showOptList r.result} {match r.reported with | none => "N" | some f => showRat f} " ++
-     (if failed.isEmpty then "-" else ",".intercalate failed), r)
+     (if failed.isEmpty then "-" else ",".intercalate failed) ++ (if answerEvaluated r.run then " 1" else " 0"), r)
   let (s0, r0) := render 0
   let (s1, _) := render 1
   if s0 != s1 then "err missing_table_entry" else
